@@ -94,6 +94,7 @@ def run(chk: Check) -> None:
     run_init_file_test_for_relative_imports(chk, ix)
     run_replacement_names_are_imported(chk, ix)
     run_literal_strings_kept(chk, ix)
+    run_typing_forms_by_resolved_name(chk, ix)
 
 
 def run_pending_decorators_cleared(chk: Check, ix) -> None:
@@ -357,3 +358,41 @@ def run_literal_strings_kept(chk: Check, ix) -> None:
         r10.ok(key, ar.loc())
     else:
         r10.violation(key, ar.loc(), "every argument is printed with arg.accept(self): a quoted Literal value that happens to be a typing name is rewritten like a type")
+
+
+TYPING_FORMS = {"TypeAlias", "Final", "ClassVar", "Literal", "Annotated"}
+
+
+def _written_name_compares(node: ast.AST):
+    """Comparisons of a written (unresolved) `.name` with the bare name of a typing special form."""
+    out = []
+    for c in ast.walk(node):
+        if isinstance(c, ast.Compare) and len(c.ops) == 1 and isinstance(c.ops[0], (ast.Eq, ast.In)):
+            sides = [c.left, c.comparators[0]]
+            lits = [x for x in sides if isinstance(x, ast.Constant) and x.value in TYPING_FORMS]
+            names = [x for x in sides if (isinstance(x, ast.Attribute) and x.attr == "name") or (isinstance(x, ast.Call) and call_name(x) == "getattr" and len(x.args) >= 2 and isinstance(x.args[1], ast.Constant) and x.args[1].value == "name")]
+            if lits and names:
+                out.append(c)
+    return out
+
+
+def run_typing_forms_by_resolved_name(chk: Check, ix) -> None:
+    """R19.11: stubgen recognises TypeAlias / Final by what the written name resolves to."""
+    r11 = chk.rule("R19.11", "an annotation can spell a typing special form as `Final`, `typing.Final` or `t.Final`; the stub text for `X: TypeAlias = int` and for a bare `Final` is special (the value is kept; `Final` gets its argument), and both are invalid in a stub when treated as an ordinary annotation. mypy/stubgen.py decides these cases through the module's import table (resolve_name / is_typing_name); it contains no comparison of a written `.name` with the bare string 'TypeAlias' / 'Final' / ... (the detector is run on a built-in positive example first)", floor=2)
+    pos = ast.parse("def f(self, o):\n    return o.unanalyzed_type and getattr(o.type, 'name', None) == 'TypeAlias'\n")
+    neg = ast.parse("def f(self, a):\n    return self.is_typing_name(a.name, 'Final')\n")
+    if len(_written_name_compares(pos)) != 1 or _written_name_compares(neg):
+        raise AnalysisError("R19.11 detector self-check failed")
+    m = ix.module("mypy.stubgen")
+    uses = 0
+    for f in list(m.functions.values()) + [mm for c in m.classes.values() for mm in c.methods.values()]:
+        if f.parent is not None:
+            continue
+        for c in _written_name_compares(f.node):
+            r11.violation(f"stubgen.{f.name}: `{norm(c)[:60]}` compares a written name with a typing form", f.loc(c), "a name written with a module prefix (`typing.TypeAlias`, `t.Final`) does not compare equal: the alias loses its value (`X: typing.TypeAlias`) or `Final` its argument, and mypy rejects the stub")
+        for c in ast.walk(f.node):
+            if isinstance(c, ast.Call) and call_name(c) == "is_typing_name" and len(c.args) == 2 and isinstance(c.args[1], ast.Constant) and c.args[1].value in TYPING_FORMS:
+                uses += 1
+                r11.ok(f"stubgen.{f.name}: `{c.args[1].value}` is recognised through is_typing_name", f.loc(c))
+    if uses < 2 and not r11.count(("VIOLATION",)):
+        raise AnalysisError(f"stubgen: only {uses} is_typing_name(<name>, 'TypeAlias'|'Final') decisions found")
